@@ -837,7 +837,7 @@ class WriteTool(BaseTool):
                 current = Path("/")
                 for part in absolute.parts[1:]:  # Skip root
                     current = current / part
-                    if current.exists() and current.is_symlink():
+                    if current.is_symlink():  # (a dangling link does not exist() but is still a link)
                         # Found a symlink - check if it's a system symlink
                         # System symlinks are typically in the first 2-3 components
                         # and resolve to /private/* or other system paths
@@ -1676,7 +1676,7 @@ class WriteTool(BaseTool):
             path_obj.parent.mkdir(parents=True, exist_ok=True)
 
             # Reject symlink targets (security)
-            if path_obj.exists() and path_obj.is_symlink():
+            if path_obj.is_symlink():  # (a dangling link does not exist() but is still a link)
                 return self._error_envelope(
                     target_path,
                     [
